@@ -47,7 +47,8 @@ def unhx(h):
 
 
 def norm_kt(s):
-    return (s or "").lower().replace("-", "_")
+    # no key_type line = the documented default type; case and -/_ do not matter
+    return (s or "ecdsa_p256").lower().replace("-", "_")
 
 
 class ProbeSession:
@@ -140,6 +141,20 @@ def catalogue():
           S("epA"), S("epB")]),
         ("rsa-and-back", two, i0, [S("epA"), S("epB"), K("rsa2048"), S("epB"), K("ecdsa_p256"), S("epA"), S("epB")]),
         ("both-forget", two, i0, [S("epA"), S("epB"), F("epA"), F("epB"), K("ed25519"), S("epB"), S("epA")]),
+        # the key_type line: absent = the default type, other spellings of the same type: no new key
+        ("key-line-spellings", two, dict(i0, key_type=None),
+         [S("epA"), S("epB"), K("ecdsa_p256"), S("epA"), K("ECDSA-P256"), R, S("epB"), K("ecdsa-p384"), S("epA"), K("ECDSA_P384"), R,
+          S("epB"), K(None), S("epA"), S("epB")]),
+        # the signature_algorithm line alone is added / removed (one algorithm per key type: no new key)
+        ("alg-line-alone", two, i0, [S("epA"), S("epB"), {"do": "alg", "value": "ES256"}, R, S("epA"), {"do": "alg", "value": None}, S("epB")]),
+        # an endpoint leaves the configuration (its record and the superseded keys it needs must stay in the file
+        # through the rewrites made for the other endpoint) and comes back
+        ("endpoint-removed-and-back", two, i0,
+         [S("epA"), S("epB"), {"do": "remove-endpoint", "ep": "epB"}, R, K("ecdsa_p384"), S("epA"), C(b), S("epA"),
+          {"do": "add-endpoint", "ep": "epB"}, R, S("epB"), S("epA")]),
+        # the binding that was removed is put back unchanged
+        ("binding-removed-then-same", two, dict(i0, eab=EABS[0]),
+         [S("epA"), S("epB"), E(None), C(b), S("epA"), E(EABS[0]), S("epA"), S("epB")]),
     ]
     return [{"label": l, "endpoints": dict(e), "init": copy.deepcopy(i), "steps": copy.deepcopy(s)} for l, e, i, s in H]
 
@@ -235,6 +250,10 @@ def describe(h):
             out.append("CA %s forgets" % s["ep"])
         elif d == "add-endpoint":
             out.append("+%s" % s["ep"])
+        elif d == "remove-endpoint":
+            out.append("-%s" % s["ep"])
+        elif d == "alg":
+            out.append("signature_algorithm:=%s" % s["value"])
         else:
             out.append(d)
     return "[%s | contacts=%s key=%s binding=%s | %s]" % (
@@ -337,7 +356,7 @@ class Run:
         marks = {n: len(c.log) for n, c in self.cas.items()}
         r = self.probe.call({"op": "am_load", "dir": self.acc_dir, "name": ACC,
                              "contacts": [["mailto", v] for v in self.cfg["contacts"]],
-                             "key_type": self.cfg["key_type"], "sig_alg": None, "eab": self.cfg["eab"],
+                             "key_type": self.cfg["key_type"], "sig_alg": self.cfg.get("sig_alg"), "eab": self.cfg["eab"],
                              "flag_dir": self.flag_dir,
                              "endpoints": [{"name": n, "url": self.cas[n].base + "/directory",
                                             "configured": self.configured[n]} for n in self.names]})
@@ -437,6 +456,12 @@ class Run:
                     self.need_load = True
                 elif do == "add-endpoint":
                     self.configured[st["ep"]] = True
+                    self.need_load = True
+                elif do == "remove-endpoint":
+                    self.configured[st["ep"]] = False
+                    self.need_load = True
+                elif do == "alg":
+                    self.cfg["sig_alg"] = st["value"]
                     self.need_load = True
                 elif do == "restart":
                     ok = self.load(i)
